@@ -1272,29 +1272,41 @@ pub fn validate_hist(out: &mut String, rng: &mut Rng, cases: usize) {
 /// built from `G r add m`, `G r rm m`, `D r o_i` (any op defined so far, duplicates included; op-author order respected so
 /// that the Orswot discipline holds) and `M r r'`, each followed by `E`.
 pub fn orswot_exhaustive(out: &mut String, depth: usize) {
-    fn rec(out: &mut String, prefix: &mut Vec<String>, authors: &mut Vec<usize>, know: &mut [Vec<bool>; 2], depth: usize) {
+    exhaustive(out, depth, "orswot", &["add 0", "add 1", "rm 0", "rm 1"], "E");
+}
+
+/// all Map scripts of the given length over 2 replicas x keys {0,1}: updates, key removes (from `get` and from `read_ctx`), per-author-order
+/// deliveries, merges; the key level is compared with the specification after every command (no whole-state oracle: nested contents)
+pub fn map_exhaustive(out: &mut String, depth: usize) {
+    exhaustive(out, depth, "map_mvreg", &["up 0 write 7", "up 1 write 7", "rm 0", "rm 1", "rmread 0"], "EQ 0 1");
+    exhaustive(out, depth, "map_orswot", &["up 0 add 0", "up 1 add 0", "up 0 rm 0", "rm 0", "rm 1", "rmread 1"], "EQ 0 1");
+}
+
+fn exhaustive(out: &mut String, depth: usize, ty: &str, gens: &[&str], last: &str) {
+    fn rec(out: &mut String, prefix: &mut Vec<String>, authors: &mut Vec<usize>, know: &mut [Vec<bool>; 2], depth: usize, ty: &str, gens: &[&str], last: &str) {
         if prefix.len() == depth {
             // skip scripts without any delivery/merge (nothing replicated)
             if prefix.iter().any(|l| l.starts_with('D') || l.starts_with('M')) {
-                out.push_str("T orswot 2\n");
+                out.push_str(&format!("T {} 2\n", ty));
                 for l in prefix.iter() {
                     out.push_str(l);
                     out.push('\n');
                 }
-                out.push_str("E\n");
+                out.push_str(last);
+                out.push('\n');
             }
             return;
         }
         let nops = authors.len();
         for r in 0..2usize {
-            for kind in ["add", "rm"] {
-                for m in 0..2 {
-                    prefix.push(format!("G {} o{} {} {}", r, nops, kind, m));
+            for g in gens.iter() {
+                {
+                    prefix.push(format!("G {} o{} {}", r, nops, g));
                     authors.push(r);
                     let saved = know.clone();
                     know[0].push(r == 0);
                     know[1].push(r == 1);
-                    rec(out, prefix, authors, know, depth);
+                    rec(out, prefix, authors, know, depth, ty, gens, last);
                     *know = saved;
                     authors.pop();
                     prefix.pop();
@@ -1307,7 +1319,7 @@ pub fn orswot_exhaustive(out: &mut String, depth: usize) {
                     prefix.push(format!("D {} o{}", r, j));
                     let was = know[r][j];
                     know[r][j] = true;
-                    rec(out, prefix, authors, know, depth);
+                    rec(out, prefix, authors, know, depth, ty, gens, last);
                     know[r][j] = was;
                     prefix.pop();
                 }
@@ -1320,13 +1332,13 @@ pub fn orswot_exhaustive(out: &mut String, depth: usize) {
                     know[r][i] = true;
                 }
             }
-            rec(out, prefix, authors, know, depth);
+            rec(out, prefix, authors, know, depth, ty, gens, last);
             know[r] = saved;
             prefix.pop();
         }
     }
     let mut know: [Vec<bool>; 2] = [vec![], vec![]];
-    rec(out, &mut vec![], &mut vec![], &mut know, depth);
+    rec(out, &mut vec![], &mut vec![], &mut know, depth, ty, gens, last);
 }
 
 /// Map::validate_merge (C17, correspondence): correct use (each actor at one replica; `VM` both ways before merges) and misuse
@@ -1727,6 +1739,7 @@ pub fn main(args: &[String]) {
         "map_vm" => map_vm(&mut out, &mut rng, cases),
         // `cases` is the script length here (quick 4, thorough 5)
         "orswot_exhaustive" => orswot_exhaustive(&mut out, cases.clamp(1, 6)),
+        "map_exhaustive" => map_exhaustive(&mut out, cases.clamp(1, 5)),
         "orswot_overtake" => orswot_overtake(&mut out, &mut rng, cases),
         "lww_conflict" => {
             // deliberately reused markers: validate_op / validate_merge must flag equal marker + different value, only
